@@ -4,6 +4,10 @@
 (* with the expected verdict and the expected (part, local index) of every    *)
 (* flat index of the merged store.                                            *)
 EXTENDS Merge, Json
+\* IdLayouts: the identifier ranges of the inputs may lie to each other in any way - each later input below the earlier one,
+\* above it (consecutive slices of a mission database), or out of order at one seam and in order at the next; lookup in
+\* the merged store is by identifier, whatever the layout.  (One layout per case, chosen by the harness from the case.)
+IdLayouts == {"descending", "ascending", "mixed"}
 VARIABLES fault, form, assoc, asplit
 gvars == <<mvars, fault, form, assoc, asplit>>
 Reversed(q) == [i \in 1..Len(q) |-> q[Len(q) + 1 - i]]
